@@ -292,3 +292,57 @@ Proof.
   apply Hl in E1, E2, E3.
   unfold store. replace (length st3) with 4%nat by congruence. cbn. discriminate.
 Qed.
+
+(* ------------------------------------------------------------ a seeded engine is never all zero
+   (the all-zero state is the fixed point of xoshiro256**: it would emit 0 forever) *)
+Definition sm_mix (z : N) : N :=
+  let z := mul64 (xor64 z (shr64 z 30)) 13787848793156543929 in
+  let z := mul64 (xor64 z (shr64 z 27)) 10723151780598845931 in
+  xor64 z (shr64 z 31).
+
+Lemma sm_next_mix : forall x, sm_next x = (add64 x 11400714819323198485, sm_mix (add64 x 11400714819323198485)).
+Proof. reflexivity. Qed.
+
+Lemma xorshift_zero : forall z k, 0 < k -> xor64 z (shr64 z k) = 0 -> z = 0.
+Proof.
+  unfold xor64, shr64. intros z k Hk H. apply N.lxor_eq in H. rewrite N.shiftr_div_pow2 in H.
+  destruct (N.eq_dec z 0) as [|Hz]; [assumption|exfalso].
+  assert (z / 2 ^ k < z).
+  { apply N.div_lt; [lia|]. apply (N.pow_gt_1 2 k); lia. }
+  lia.
+Qed.
+
+Lemma mul64_unit_zero : forall a c d, a < M64 -> (c * d) mod M64 = 1 -> mul64 a c = 0 -> a = 0.
+Proof.
+  unfold mul64. intros a c d Ha Hcd H.
+  assert (E : a = (a * c mod M64 * d) mod M64).
+  { rewrite N.mul_mod_idemp_l by exact M64_pos. rewrite <- N.mul_assoc.
+    rewrite <- N.mul_mod_idemp_r by exact M64_pos. rewrite Hcd, N.mul_1_r. symmetry. apply N.mod_small. exact Ha. }
+  rewrite H in E. rewrite E. reflexivity.
+Qed.
+
+Lemma sm_mix_zero : forall z, z < M64 -> sm_mix z = 0 -> z = 0.
+Proof.
+  intros z Hz H. unfold sm_mix in H.
+  apply xorshift_zero in H; [|reflexivity].
+  apply (mul64_unit_zero _ _ 3573116690164977347) in H; [|apply xor64_lt; [apply mul64_lt|apply shr64_lt, mul64_lt]|reflexivity].
+  apply xorshift_zero in H; [|reflexivity].
+  apply (mul64_unit_zero _ _ 10871156337175269513) in H; [|apply xor64_lt; [exact Hz|apply shr64_lt; exact Hz]|reflexivity].
+  apply xorshift_zero in H; [|reflexivity]. exact H.
+Qed.
+
+Lemma seed_engine_not_zero : forall old s, s0 (seed_engine old s) <> 0 \/ s1 (seed_engine old s) <> 0.
+Proof.
+  intros old s. unfold seed_engine.
+  set (sd := if s =? 0 then def_seed else s).
+  rewrite (sm_next_mix sd). set (x1 := add64 sd 11400714819323198485).
+  rewrite (sm_next_mix x1). set (x2 := add64 x1 11400714819323198485).
+  destruct (sm_next x2) as [x3 c]. destruct (sm_next x3) as [x4 d]. cbn [s0 s1].
+  destruct (N.eq_dec (sm_mix x1) 0) as [E1|E1]; [|left; exact E1].
+  right. intro E2.
+  apply sm_mix_zero in E1; [|apply add64_lt]. apply sm_mix_zero in E2; [|apply add64_lt].
+  unfold x2 in E2. rewrite E1 in E2. vm_compute in E2. discriminate E2.
+Qed.
+
+Lemma zero_state_is_fixed : next zero_state = (0, zero_state).
+Proof. reflexivity. Qed.
